@@ -116,6 +116,27 @@ func (p c07) Gen(r *simhook.Rand, tier string, idx int) harness.Scenario {
 		sc.Probes, sc.Probes2 = nil, nil
 		return sc
 	}
+	if r.Chance(1, 10) && m >= 2 {
+		// class "replica-move": reads may go to replicas; one replica is re-attached to another master (the masters
+		// keep their ids, addresses and slots). After the refresh rounds that the first redirection triggers, reads
+		// are no longer redirected.
+		sc.Class = "replica-move"
+		sc.Env.Replicas = 1
+		sc.Env.ReadStrategy = 1 + r.Intn(2)
+		rep := m + r.Intn(m)
+		sc.Faults = append(sc.Faults, Fault{Kind: "replica-move", Node: rep, Dst: r.Intn(m), AfterSend: r.Intn(250)})
+		sc.SettleMs = []int{0, 100, 6000, 130000}[r.Intn(4)]
+		pr := ConnScript{Name: "p0"}
+		pr2 := ConnScript{Name: "q0"}
+		for _, k := range all {
+			for j := 0; j < 3; j++ { // several reads per key: some go to the master, some to a replica
+				pr.Reqs = append(pr.Reqs, world.Request{Args: world.Bins("GET", k), Wait: r.Chance(1, 2)})
+				pr2.Reqs = append(pr2.Reqs, world.Request{Args: world.Bins("GET", k), Wait: r.Chance(1, 2)})
+			}
+		}
+		sc.Probes, sc.Probes2 = []ConnScript{pr}, []ConnScript{pr2}
+		return sc
+	}
 	// faults
 	class := r.Intn(5)
 	node := r.Intn(m)
